@@ -4,14 +4,14 @@ HOST_SRC = ["harness/drv_host.cpp"]
 
 
 def _c10_stages(tier):
-    enum_deadline = "1500" if tier == "thorough" else "150"
+    enum_deadline = "3000" if tier == "thorough" else "150"
     bfs_deadline = "600" if tier == "thorough" else "60"
     common = {"driver": "drv_host", "config": "rel", "sources": HOST_SRC + REF_SRC, "flags": REF_FLAGS}
     return [
-        dict(common, name="host-enum", args=["--stage", "enum", "--deadline", enum_deadline], replay_args=["--stage", "enum"],
-             kinds=["host"]),
         dict(common, name="host-bfs", args=["--stage", "bfs", "--threads", str(vlib.NPROC), "--deadline", bfs_deadline],
              replay_args=["--stage", "bfs"], kinds=["host-hist"], shards=1),
+        dict(common, name="host-enum", args=["--stage", "enum", "--deadline", enum_deadline], replay_args=["--stage", "enum"],
+             kinds=["host"]),
     ]
 
 
@@ -26,24 +26,28 @@ def _c10_post(cov, acc, tier):
 
 simple("C10", "model_checking",
        "(1) IPv4 by value through parse(\"http://a.b.c.d/\"), both URL types: thorough = ALL 2^32 dotted-decimal addresses (result must be the "
-       "identity text, host_type IPV4); both tiers: every pair of octet positions x all 2^16 value pairs with the other octets in {0,1,99,255}, "
-       "every <=3-digit string (leading zeros, >255) at each octet position +- trailing dot, and every address of a strided subset covering all "
-       "2^16 high and all 2^16 low halves (every 17th in quick) as one decimal / 0x / 0X / 0-octal number and in 2-, 3-, 4-part mixed-radix forms. "
-       "(2) IPv4 by form: every spelling of 1..3 (quick) / 1..4 (thorough) parts, each part from 19 values x {decimal, 0-octal, 0x, 0X+upper digits, "
-       "0x+upper digits, extra leading zeros (decimal and hex), non-digit suffix} + {bare 0x/0X, empty, x, g, 08, 09, percent-encoded digits, "
-       "fullwidth digits, +1, -1} (176 part strings), 5 parts over a 14-string menu, +- trailing dot; compared on success/failure, address, "
-       "serialisation and host_type for http parse (both types); reduced products additionally through foo:// (opaque host stays as is), "
-       "set_host and set_hostname on http/foo/file URLs, behind credentials+port, in file:/ws: URLs and via a base. (3) IPv6: every sequence of "
-       "<=6/8 pieces (9 without tail in thorough) over {0,1,a,ffff,00ab,abcde,g,empty} x 14 tails (none + 13 IPv4 tails: valid, >255, leading "
-       "zero, 3/5 parts, trailing dot, empty part, hex, 4 digits), '::' inserted in every subset of <=2 slots for <=4/6 pieces of the full "
-       "alphabet and <=8/9 pieces of {0,1,ffff,00ab}, upper and lower case; acceptance + value + compressed lower-case serialisation + host_type; "
-       "reduced product through foo://, set_host, set_hostname; serialise->parse identity on all 256 zero/non-zero patterns x 3 value "
-       "assignments x 3 spellings. (4) host-kind truthfulness: explicit-state BFS from 17 bases x 24 relative inputs (every pair that inherits or "
-       "replaces a host: IPv4, IPv6, domain, file, empty-host and opaque-host bases) over a set_host/set_hostname/set_href/set_protocol/set_port/"
-       "set_pathname menu (depth 3 quick / fixpoint thorough), url + url_aggregator + refurl record in lockstep; in every state host_type == kind "
+       "identity text with host_type IPV4; the model's IPv4 parser+serialiser are run on 2^24 of the texts, one d per (a,b,c)); both tiers: every "
+       "pair of octet positions x all 2^16 value pairs with the other octets in {0,1,99,255} (6.3M addresses, model run on each), every <=3-digit "
+       "string (leading zeros, >255) at each octet position +- trailing dot, and every address of a strided subset covering all 2^16 high and all "
+       "2^16 low halves (every 17th in quick) as one decimal / 0x / 0X / 0-octal number and in 2-, 3-, 4-part mixed-radix forms. "
+       "(2) IPv4 by form: every spelling of 1..3 parts, each part from 19 values x {decimal, 0-octal, 0x, 0X+upper digits, 0x+upper digits, extra "
+       "leading zeros (decimal and hex), non-digit suffix} + {bare 0x/0X, empty, x, g, 08, 09, percent-encoded digits, fullwidth digits, +1, -1} "
+       "(176 part strings); thorough adds every 4-part spelling over 19 values x {decimal, 0-octal, 0x, 0X+upper digits} + specials (90 strings); "
+       "5 parts over a 14-string menu; all +- trailing dot; compared on success/failure, address, serialisation and host_type for http parse "
+       "(both types); reduced products (<=2 parts full menu, 3 parts over 49 strings, 4 parts over 14 in thorough) additionally through foo:// "
+       "(opaque host stays as is), set_host and set_hostname on http/foo/file URLs; <=2 parts behind credentials+port, in file:/ws: URLs and via a "
+       "base. (3) IPv6: every sequence of <=5 (quick) / <=8 (thorough) pieces over {0,1,a,ffff,00ab,abcde,g,empty} x 14 tails (none + 13 IPv4 tails: "
+       "valid, >255, leading zero, 3/5 parts, trailing dot, empty part, hex, 4 digits), 6 / 9 pieces without tail; '::' inserted in every subset of "
+       "<=2 slots for <=4/6 pieces of the full alphabet x tails and for up to 8/9 pieces of {0,1,ffff,00ab} (quick: tails up to 6 pieces); upper "
+       "and lower case; acceptance + value + compressed lower-case serialisation + host_type; reduced product through foo://, set_host, "
+       "set_hostname; bracket-level malformations; serialise->parse identity on all 256 zero/non-zero patterns x 3 value assignments x 3 "
+       "spellings. (4) host-kind truthfulness: explicit-state BFS from 17 bases x 24 relative inputs (every pair that inherits or replaces a host: "
+       "IPv4, IPv6, domain, file, empty-host and opaque-host bases) over a set_host/set_hostname/set_href/set_protocol/set_port/set_pathname menu "
+       "(43 ops, depth 3 quick / 75 ops, fixpoint thorough), url + url_aggregator + refurl record in lockstep; in every state host_type == kind "
        "recomputed from hostname text and scheme class == model kind == kind of the re-parsed href. (5) has_valid_domain() on label lengths "
        "{0,1,62,63,64}^(1..4) and all 4..6-label names of total length 250..257 over {1,2,59..64}, +- trailing dot, 4 URL shapes + set_hostname. "
-       "states = distinct (hostname, kind) results + BFS states + identity-checked IPv4 values; transitions = ada calls compared with the model",
+       "states = distinct (hostname, kind) results + BFS states + identity-checked IPv4 values; transitions = ada calls compared with the model; "
+       "non-trivial = the Standard accepts the host",
        ["oracle: refurl IPv4/IPv6 parsers and serialisers on wide integers, host parser, URL parser and setters (validated on the WPT "
         "vectors before every run) + refidna; hot loops call the model's host-level functions and every candidate is re-judged by the full "
         "refurl::parse before being reported",
@@ -51,7 +55,7 @@ simple("C10", "model_checking",
         "has_valid_domain is judged against the rule as ada documents it (checkers.h: labels 1..63, <=253 characters or 254 with the final dot, "
         "non-empty); not judged: the name '.' alone and IP-literal hosts, which the documentation does not address",
         "in the BFS a difference from the model outside hostname/host kind is C03's business: counted, not judged, not expanded"],
-       _c10_stages, needs_models=True, post=_c10_post, deadline={"quick": 300, "thorough": 2700})
+       _c10_stages, needs_models=True, post=_c10_post, deadline={"quick": 300, "thorough": 3600})
 
 META["C10"] = {
     "engine": "host-enum + host-bfs (drv_host)", "design_ref": "3/C10",
